@@ -126,7 +126,11 @@ func H_C05_Decode(v *sym.V) {
 	} else if reg == 4 {
 		which = 1
 	}
-	pf, _ := payloadFault(v.Choice("payload", numPayloadFaults))
+	nf := numPayloadFaults
+	if reg >= 3 {
+		nf = 2 // keys taken from the encoder registries mostly have no decoder: the payload is not interpreted
+	}
+	pf, _ := payloadFault(v.Choice("payload", nf))
 	nd := v.Choice("ndetails", 3)
 	var details []string
 	for i := 0; i < nd; i++ {
